@@ -3,4 +3,5 @@ CONSTANTS Segs = {1, 2} StructSeg = 11 OffSet = {} OffAt = 0 Family = "flat" Bod
 INIT Init
 NEXT GenNext
 INVARIANTS ForwardIsAllowed ErrCountIsFaultyExecuted ChainMirrorsCounts ImageIsData KeptIffClean
+           ConstantsKeepTheirValue SkippedDefinesNothing VariableIsLastSetOrPopped
 CHECK_DEADLOCK FALSE
